@@ -69,7 +69,10 @@ impl PayloadHandler for ServiceQueryRequestHandler {
             &NamingUtils::default_group(request.group_name.unwrap_or_default()),
             &request.service_name.unwrap_or_default(),
         );
-        let cmd = NamingCmd::QueryServiceInfo(key, cluster, true);
+        // the request says whether only healthy instances are wanted (clients that do not say get the
+        // healthy ones, as before); the protection threshold is applied by the registry either way
+        let only_healthy = request.healthy_only.unwrap_or(true);
+        let cmd = NamingCmd::QueryServiceInfo(key, cluster, only_healthy);
         match self.app_data.naming_addr.send(cmd).await {
             Ok(res) => {
                 let result: NamingResult = res.unwrap();
